@@ -64,6 +64,28 @@ type Case struct {
 	Keys       [][]byte  `json:"keys"`
 	Reqs       []Req     `json:"reqs"`
 	CloseProbe bool      `json:"close_probe,omitempty"` // after the sequence: close the engine, then Get a live key
+	// Topo, when set, is what the replication manager handed to the service
+	// reports (a stand-in provider); GetNodeInfo must pass it on unchanged
+	Topo *Topo `json:"topo,omitempty"`
+}
+
+// Topo is a replication topology as a ReplicationInfoProvider reports it.
+type Topo struct {
+	Role     string        `json:"role"` // primary | replica | standalone | (anything else reads as standalone)
+	Primary  string        `json:"primary,omitempty"`
+	LastSeq  uint64        `json:"last_seq"`
+	ReadOnly bool          `json:"read_only"`
+	NilList  bool          `json:"nil_list,omitempty"` // the replica list is nil instead of empty
+	Replicas []TopoReplica `json:"replicas,omitempty"`
+}
+
+// TopoReplica is one entry of the replica list.
+type TopoReplica struct {
+	Address   string `json:"address"`
+	LastSeq   uint64 `json:"last_seq"`
+	Available bool   `json:"available"`
+	Region    string `json:"region,omitempty"`
+	MetaKey   string `json:"meta_key,omitempty"`
 }
 
 var overKey = bytes.Repeat([]byte{'o'}, maxKey+1)
